@@ -391,6 +391,10 @@ def run_sequence(init, script, record=None):
     v["q"] = np.array(v["prsn"] / v["pr"])
     ids = {k: id(a) for k, a in v.items()}
     problems = []
+    # results handed out by earlier calls (the objects as returned) with a copy of their content: a LATER CALL must not change
+    # them (the value the caller holds is the clause's "returns the original tasmin / tasmax").  The caller's own in-place
+    # modifications between calls are re-snapshotted right before the next call, so only the call itself is judged.
+    held = []
     if record is not None:
         record["v0"] = {k: a.copy() for k, a in v.items()}
         record["outs"] = []
@@ -400,6 +404,7 @@ def run_sequence(init, script, record=None):
             continue
         name = step[1]
         before = {k: a.copy() for k, a in v.items()}
+        held = [(m, nm, pos, obj, np.array(obj, copy=True)) for m, nm, pos, obj, _ in held]
         with warnings.catch_warnings(), np.errstate(all="ignore"):
             warnings.simplefilter("ignore")
             want = seq_reference(name, before)
@@ -413,6 +418,11 @@ def run_sequence(init, script, record=None):
         for k in v:
             if not np.array_equal(v[k], before[k], equal_nan=True) or id(v[k]) != ids[k]:
                 problems.append((f"step {n} {name}: the call changed its argument '{k}'", n))
+        for m, nm, pos, obj, snap in held:
+            if not np.array_equal(np.asarray(obj), snap, equal_nan=True):
+                problems.append((f"step {n} {name}: the call changed the result that step {m} {nm} (output {pos}) had returned", n))
+                break
+        held += [(n, name, pos, g, None) for pos, g in enumerate(got)]
         tol = REL * mag(*[before[a] for a in args])
         for pos, (g, w) in enumerate(zip(got, want)):
             g = np.asarray(g, dtype=float)
@@ -636,6 +646,302 @@ def oracle_ambient(name, tas, tasmin, tasmax, pr, prsn):
     return problems
 
 
+# ------------------------------------------------------------------ magnitudes over the whole floating range
+# Quantifier covered: "for ALL arrays ... with tasmin < tasmax, tasmin <= tas <= tasmax, and ALL pr > 0, 0 <= prsn <= pr" —
+# *all* includes every magnitude a float of the storage dtype can hold: subnormal ("numerical drizzle" of model output,
+# float64 below 2.2e-308, float32 below 1.2e-38), barely normal, tiny, huge.  The other generators stay within
+# 2^-30 .. 2^9, where a reciprocal, a square, a product of two inputs ... can neither overflow nor underflow, so a rewrite
+# that is only the same formula over the reals is indistinguishable there.  Values are k/64 * 2^e with e chosen so that
+# every value is exactly representable in the dtype (quantum 2^e/64 >= smallest subnormal), per array or per element
+# (ordinary days mixed with drizzle days).  The largest values leave 2^17 of headroom below the overflow threshold, so
+# tasmin + tasrange and prsn / prsnratio (= pr up to rounding) of the documented formulas cannot overflow.
+MAG_EXPS = {"float64": [-1068, -1062, -1055, -1047, -1040, -1033, -1030, -1026, -1022, -1015, -1000, -600, -200, -60, -17, 0, 60, 200, 600, 1000],
+            "float32": [-143, -141, -138, -135, -132, -129, -127, -126, -124, -120, -90, -40, -17, 0, 40, 90, 100]}
+MAG_ORDINARY = {"pr": -17, "tas": 0}
+
+
+def gen_magnitude(rng, tier):
+    import math
+
+    family = rng.choice(["pr", "pr", "tas"])
+    dtype = rng.choice(["float64", "float64", "float32"])
+    while True:
+        shape = gen_shape(rng, tier)
+        if int(np.prod(shape)) > 0:
+            break
+    n = int(np.prod(shape))
+    exps = MAG_EXPS[dtype]
+    mode = rng.choice(["uniform", "mixed", "drizzle"])
+    e0 = rng.choice(exps)
+    low = [e for e in exps if e < (-1020 if dtype == "float64" else -124)]  # values k/64 * 2^e below the smallest normal number
+    cols = {k: [] for k in (("pr", "prsn") if family == "pr" else ("tas", "tasmin", "tasmax"))}
+    for _ in range(n):
+        e = e0 if mode == "uniform" else rng.choice(exps) if mode == "mixed" else (rng.choice(low) if rng.random() < 0.3 else MAG_ORDINARY[family])
+        if family == "pr":
+            pk = rng.randint(1, 3200)
+            sk = rng.choice([0, pk, rng.randint(0, pk), rng.randint(0, pk)])
+            cols["pr"].append(math.ldexp(pk / 64.0, e))
+            cols["prsn"].append(math.ldexp(sk / 64.0, e))
+        else:
+            sc = rng.choice([1, 8, 64, 320])
+            lk = rng.randint(-sc * 64, sc * 64)
+            rk = rng.randint(1, 2560)
+            tk = lk + rng.choice([0, rk, rng.randint(0, rk), rng.randint(0, rk)])
+            cols["tas"].append(math.ldexp(tk / 64.0, e))
+            cols["tasmin"].append(math.ldexp(lk / 64.0, e))
+            cols["tasmax"].append(math.ldexp((lk + rk) / 64.0, e))
+    case = {"family": "magnitude-" + family, "dtype": dtype, "shape": list(shape), "mode": mode}
+    for k, col in cols.items():
+        a = np.array(col, dtype=float).reshape(shape)
+        assert np.array_equal(a.astype(dtype).astype(float), a), "generator: value not representable in " + dtype
+        case[k] = a.tolist()
+    return case
+
+
+def _rows(bad, **arrs):
+    idx = tuple(int(i) for i in np.argwhere(bad)[0])
+    return {"index": list(idx), "n_bad": int(np.sum(bad)), **{k: float(np.asarray(a)[idx]) for k, a in arrs.items()}}
+
+
+@no_raise
+def oracle_magnitude(case):
+    """C18 for data of any magnitude of the dtype.  Tolerances are element-wise: 8 eps of the dtype relative to the value that
+    must come back (each documented formula is at most three correctly rounded operations), plus 4 smallest-subnormals for
+    a result that is itself subnormal (there an operation rounds to the subnormal grid, not relatively)."""
+    u = U()
+    dt = np.dtype(case["dtype"])
+    eps, tiny = float(np.finfo(dt).eps), float(np.finfo(dt).smallest_subnormal)
+    A = lambda k: np.asarray(case[k], dtype=float).astype(dt).reshape(case["shape"])  # noqa: E731
+    F = lambda a: np.asarray(a, dtype=float)  # noqa: E731
+    problems = []
+    if case["family"] == "magnitude-pr":
+        pr, prsn = A("pr"), A("prsn")
+        with warnings.catch_warnings(), np.errstate(all="ignore"):
+            warnings.simplefilter("ignore")
+            q = u.get_prsnratio(pr, prsn)
+            s2 = u.get_prsn(pr, q)
+            p2 = u.get_pr(prsn, q)
+            exact = F(prsn) / F(pr)
+        for nm, a in (("get_prsnratio", q), ("get_prsn", s2), ("get_pr", p2)):
+            if np.shape(a) != pr.shape:
+                return [(f"{nm} changes the shape", {"got": list(np.shape(a))})]
+        q, s2, p2 = F(q), F(s2), F(p2)
+        bad = ~((q >= 0) & (q <= 1))
+        if np.any(bad):
+            problems.append(("prsnratio outside [0,1] (or not finite) for 0 <= prsn <= pr, pr > 0", _rows(bad, pr=pr, prsn=prsn, prsnratio=q, exact=exact)))
+        bad = ~(np.abs(q - exact) <= 8 * eps * exact)
+        if np.any(bad):
+            problems.append(("get_prsnratio differs from prsn / pr", _rows(bad, pr=pr, prsn=prsn, prsnratio=q, exact=exact)))
+        bad = ~(np.abs(s2 - F(prsn)) <= 8 * eps * F(prsn) + 4 * tiny)
+        if np.any(bad):
+            problems.append(("get_prsn(pr, get_prsnratio(pr, prsn)) differs from prsn", _rows(bad, pr=pr, prsn=prsn, prsnratio=q, got=s2)))
+        bad = (F(prsn) > 0) & ~(np.abs(p2 - F(pr)) <= 8 * eps * F(pr) + 4 * tiny)
+        if np.any(bad):
+            problems.append(("get_pr(prsn, get_prsnratio(pr, prsn)) differs from pr where prsn > 0", _rows(bad, pr=pr, prsn=prsn, prsnratio=q, got=p2)))
+        return problems
+    tas, tasmin, tasmax = A("tas"), A("tasmin"), A("tasmax")
+    with warnings.catch_warnings(), np.errstate(all="ignore"):
+        warnings.simplefilter("ignore")
+        r, s = u.get_tasrange_tasskew(tas, tasmin, tasmax)
+        r1, s1 = u.get_tasrange(tasmin, tasmax), u.get_tasskew(tas, tasmin, tasmax)
+        mn, mx = u.get_tasmin_tasmax(tas, r, s)
+        mn1, mx1 = u.get_tasmin(tas, r, s), u.get_tasmax(tas, r, s)
+        exact_s = (F(tas) - F(tasmin)) / (F(tasmax) - F(tasmin))  # numerator and denominator are exact (multiples of one quantum)
+    for nm, a in (("tasrange", r), ("tasskew", s), ("tasmin", mn), ("tasmax", mx), ("get_tasrange", r1), ("get_tasskew", s1), ("get_tasmin", mn1), ("get_tasmax", mx1)):
+        if np.shape(a) != tas.shape:
+            return [(f"{nm} changes the shape", {"got": list(np.shape(a))})]
+    if not (np.array_equal(r, r1, equal_nan=True) and np.array_equal(s, s1, equal_nan=True)):
+        problems.append(("get_tasrange_tasskew differs from (get_tasrange, get_tasskew)", {}))
+    if not (np.array_equal(mn, mn1, equal_nan=True) and np.array_equal(mx, mx1, equal_nan=True)):
+        problems.append(("get_tasmin_tasmax differs from (get_tasmin, get_tasmax)", {}))
+    r, s, mn, mx = F(r), F(s), F(mn), F(mx)
+    tol = 8 * eps * np.maximum.reduce([np.abs(F(tas)), np.abs(F(tasmin)), np.abs(F(tasmax))]) + 4 * tiny
+    bad = ~((s >= 0) & (s <= 1) & (r > 0))
+    if np.any(bad):
+        problems.append(("tasskew outside [0,1] or tasrange <= 0 for tasmin <= tas <= tasmax, tasmin < tasmax", _rows(bad, tas=tas, tasmin=tasmin, tasmax=tasmax, tasrange=r, tasskew=s)))
+    bad = ~(np.abs(r - (F(tasmax) - F(tasmin))) <= tol)
+    if np.any(bad):
+        problems.append(("get_tasrange differs from tasmax - tasmin", _rows(bad, tasmin=tasmin, tasmax=tasmax, tasrange=r)))
+    bad = ~(np.abs(s - exact_s) <= 8 * eps * exact_s)
+    if np.any(bad):
+        problems.append(("get_tasskew differs from (tas - tasmin) / (tasmax - tasmin)", _rows(bad, tas=tas, tasmin=tasmin, tasmax=tasmax, tasskew=s, exact=exact_s)))
+    bad = ~(np.abs(mn - F(tasmin)) <= tol)
+    if np.any(bad):
+        problems.append(("round trip does not return tasmin", _rows(bad, tas=tas, tasmin=tasmin, tasmax=tasmax, got=mn)))
+    bad = ~(np.abs(mx - F(tasmax)) <= tol)
+    if np.any(bad):
+        problems.append(("round trip does not return tasmax", _rows(bad, tas=tas, tasmin=tasmin, tasmax=tasmax, got=mx)))
+    bad = ~((mn <= F(tas) + tol) & (F(tas) <= mx + tol))
+    if np.any(bad):
+        problems.append(("tasmin <= tas <= tasmax violated after the round trip", _rows(bad, tas=tas, tasmin_back=mn, tasmax_back=mx)))
+    return problems
+
+
+# ------------------------------------------------------------------ realistic array sizes, results kept while other data is converted
+# Quantifier covered: "arrays of ANY shape" — any *size* as well: the other generators stop at ~100 elements, so a code path
+# that is only taken from some size on (work buffers kept for big grids, chunking, a different numpy code path) was never
+# run.  And the clause "returns the original tasmin and tasmax" is a statement about the VALUE handed to the caller: it must
+# still be that value when the caller looks at it after converting the next data set (obs, then cm_hist, then cm_future —
+# the ordinary workflow), i.e. no later call on OTHER arrays may change a result returned earlier.  The sequence oracle above
+# judges every call right after it returns and so cannot see a result that is overwritten later.
+# A case is a recipe (sizes, seeds, call order) — the arrays themselves are regenerated from it (replay files stay small).
+GRID_SIZES = {"small": [1000, 4096, 10_000, 2 ** 15, 2 ** 16], "mid": [100_000, 2 ** 17, 250_000, 2 ** 18, 500_000],
+              "large": [1_000_000, 2 ** 20, 1_200_000, 1_500_000], "huge": [2_000_000, 2 ** 21, 3_000_000, 4_000_000, 2 ** 22]}
+
+
+def grid_shape(rng, size):
+    """a shape with (at least, and for the exact variants exactly) `size` elements: [time], [time, cell] or [time, lat, lon]"""
+    kind = rng.choice(["1d", "2d", "3d", "3d", "3d-exact"])
+    if kind == "1d":
+        return (size,)
+    if kind == "2d":
+        c = rng.randint(2, 40)
+        return (-(-size // c), c)
+    if kind == "3d-exact":
+        for la, lo in rng.sample([(50, 50), (40, 25), (32, 32), (20, 10), (16, 8), (10, 10), (8, 8), (5, 4), (4, 4), (2, 2)], 10):
+            if size % (la * lo) == 0:
+                return (size // (la * lo), la, lo)
+        return (size, 1, 1)
+    la, lo = rng.randint(2, 60), rng.randint(2, 60)
+    return (max(1, -(-size // (la * lo))), la, lo)
+
+
+def gen_retained(rng, cls):
+    size = rng.choice(GRID_SIZES[cls])
+    shape = grid_shape(rng, size)
+    dtype = rng.choice(["float64", "float64", "float64", "float32"])
+    nds = 2 if cls in ("large", "huge") else rng.choice([2, 3])
+    datasets = []
+    for d in range(nds):
+        sh = shape
+        if d > 0 and rng.random() < 0.25:  # another period: a different number of time steps
+            sh = (max(1, shape[0] + rng.choice([-1, 1]) * rng.randint(1, max(1, shape[0] // 4))),) + tuple(shape[1:])
+        calls = list(SEQ_CALLS)
+        rng.shuffle(calls)
+        calls += [rng.choice(SEQ_CALLS) for _ in range(rng.randint(0, 2))]
+        datasets.append({"shape": list(sh), "dtype": dtype if (d == 0 or rng.random() < 0.85) else ("float32" if dtype == "float64" else "float64"),
+                         "seed": rng.getrandbits(32), "calls": calls})
+    return {"family": "retained", "size_class": cls, "shape": list(shape), "datasets": datasets}
+
+
+def make_grid(seed, shape, dtype):
+    """well-formed data k/64 (exact in float32 as well) of one data set, drawn by numpy's generator from `seed`:
+    tasmin < tasmax, tasmin <= tas <= tasmax (the bounds occur), pr > 0, 0 <= prsn <= pr (0 and pr occur), a flux unit"""
+    g = np.random.default_rng(seed)
+    shape = tuple(shape)
+    off = int(g.integers(-40, 300))
+    mnk = np.rint((off + 8.0 * g.standard_normal(shape)) * 64.0)
+    rk = g.integers(1, 64 * 15 + 1, size=shape)
+    tk = mnk + np.floor(g.random(shape) * (rk + 1))  # 0 .. rk
+    prk = g.integers(1, 3201, size=shape)
+    snk = np.floor(g.random(shape) * (prk + 1))  # 0 .. prk
+    unit = 2.0 ** -int(g.choice([0, 10, 17]))
+    v = {"tas": tk / 64.0, "tasmin": mnk / 64.0, "tasmax": (mnk + rk) / 64.0, "pr": prk / 64.0 * unit, "prsn": snk / 64.0 * unit}
+    v = {k: np.ascontiguousarray(a, dtype=dtype) for k, a in v.items()}
+    with np.errstate(all="ignore"):
+        v["r"] = v["tasmax"] - v["tasmin"]
+        v["s"] = (v["tas"] - v["tasmin"]) / v["r"]
+        v["q"] = v["prsn"] / v["pr"]
+    return v
+
+
+def _differs(g, w, scale, rel):
+    """element mask: g is not the reference w to rounding (w non-finite: g must be non-finite as well)"""
+    ok = np.abs(g - w) <= rel * scale + rel * np.abs(w)  # False wherever g or w is not finite
+    if ok.all():
+        return ~ok
+    fin = np.isfinite(w)
+    return (np.isfinite(g) != fin) | (fin & ~ok)
+
+
+def _same_content(obj, snap):
+    a = np.asarray(obj)
+    if a.shape != snap.shape or a.dtype != snap.dtype:
+        return False
+    return bool((a == snap).all()) or np.array_equal(a, snap, equal_nan=True)
+
+
+def oracle_retained(case):
+    """every call equals the documented formula of its arguments when it returns; every result returned so far is STILL what
+    was returned (bit for bit, hence still the formula of the unchanged arguments it was computed from) after the following
+    calls — looked at after every call for grids up to 1e5 values, after every data set and at the end for the bigger ones;
+    no call changes an argument"""
+    u = U()
+    problems = []
+    data, held = [], []  # held: (data set, position of the call in its script, function, output number, the object as returned, copy of its content)
+    every_call = int(np.prod(case["shape"])) <= 100_000
+
+    def rel_of(d):
+        return 2e-6 if case["datasets"][d]["dtype"] == "float32" else REL
+
+    def check_held(after):
+        for d, c, name, pos, obj, snap in held:
+            if _same_content(obj, snap):
+                continue
+            v, ref, amax = data[d]
+            want = seq_reference(name, ref)[pos]
+            g = np.asarray(obj, dtype=float)
+            bad = _differs(g, want, max([1.0] + [amax[a] for a in FUNC_ARGS[name]]), rel_of(d)) if g.shape == want.shape else np.ones(1, dtype=bool)
+            if not np.any(bad):  # changed within rounding: report the first changed element
+                bad = ~((g == snap) | (np.isnan(g) & np.isnan(snap)))
+            problems.append((f"a result returned earlier ({name}, output {pos}) was changed by later calls on other arrays: it no longer equals the "
+                             f"formula of the unchanged arguments it was computed from",
+                             {"result_of": {"dataset": d, "call": c, "function": name, "output": pos}, "changed_after": after,
+                              **(_rows(bad, now=g, returned=snap, formula=want) if g.shape == want.shape else {"shape_now": list(g.shape)})}))
+            return True
+        return False
+
+    with warnings.catch_warnings(), np.errstate(all="ignore"):
+        warnings.simplefilter("ignore")
+        for d, ds in enumerate(case["datasets"]):
+            v = make_grid(ds["seed"], ds["shape"], ds["dtype"])
+            ref = {k: a.astype(float) for k, a in v.items()}  # copies: the reference side never sees the arrays handed to the real code
+            amax = {k: float(np.max(np.abs(a))) if a.size else 0.0 for k, a in ref.items()}
+            data.append((v, ref, amax))
+            for c, name in enumerate(ds["calls"]):
+                try:
+                    got, args = seq_call(u, name, v)
+                except RealRaised as rr:
+                    return [(f"{name} raised {type(rr.ex).__name__} on valid input ({str(rr.ex)[:120]})", {"dataset": d, "call": c, "function": name})]
+                want = seq_reference(name, ref)
+                for k in args:
+                    if not (v[k] == ref[k]).all():
+                        problems.append((f"{name} changed its argument '{k}'", {"dataset": d, "call": c}))
+                for pos, (g, w) in enumerate(zip(got, want)):
+                    gf = np.asarray(g, dtype=float)
+                    if gf.shape != w.shape:
+                        problems.append((f"{name} output {pos} has shape {gf.shape}, the inputs have shape {w.shape}", {"dataset": d, "call": c}))
+                        continue
+                    bad = _differs(gf, w, max([1.0] + [amax[a] for a in args]), rel_of(d))
+                    if np.any(bad):
+                        problems.append((f"{name} output {pos} differs from the documented formula of its arguments", {"dataset": d, "call": c, **_rows(bad, got=gf, expected=w)}))
+                if problems or (every_call and check_held({"dataset": d, "call": c, "function": name})):
+                    return problems
+                held += [(d, c, name, pos, g, np.array(g, copy=True)) for pos, g in enumerate(got)]
+            for k in v:  # all arrays of the data set, also those the last calls did not take
+                if not (v[k] == ref[k]).all():
+                    problems.append((f"the calls changed the array '{k}' of the data set", {"dataset": d}))
+            if problems or check_held({"dataset": d, "calls": ds["calls"]}):
+                return problems
+        # the round-trip clause on the retained results: what get_tasmin_tasmax returned for (tas, range, skew) of a data set is
+        # that data set's tasmin / tasmax, and tasmin <= tas <= tasmax, looked at when everything has been converted
+        done = set()
+        for d, c, name, pos, obj, snap in held:
+            if name != "get_tasmin_tasmax" or (d, pos) in done:
+                continue
+            done.add((d, pos))
+            v, ref, amax = data[d]
+            orig = ref["tasmin"] if pos == 0 else ref["tasmax"]
+            tol = rel_of(d) * max(1.0, amax["tas"], amax["tasmin"], amax["tasmax"])
+            g = np.asarray(obj, dtype=float)
+            bad = ~(np.abs(g - orig) <= tol) | ~((g <= ref["tas"] + tol) if pos == 0 else (ref["tas"] <= g + tol))
+            if np.any(bad):
+                problems.append((f"round trip does not return {'tasmin' if pos == 0 else 'tasmax'} (looked at when all data sets were converted)",
+                                 {"dataset": d, "call": c, **_rows(bad, got=g, original=orig, tas=ref["tas"])}))
+                break
+    return problems
+
+
 # ------------------------------------------------------------------ correspondence helpers
 def flat(a):
     return [float(x) for x in np.asarray(a, dtype=float).reshape(-1)]
@@ -670,7 +976,9 @@ def run(tier, res, force_search=False):
     res.rule = ("cases = (family tas-forward | tas-inverse | pr, flavour wellformed | degenerate | free, array shape incl. 0-d, empty, 1..4-d) "
                 "with dyadic values k/64 from one PRNG (VERIF_SEED); a case is non-trivial when the array is non-empty and not constant; "
                 "distinct = distinct (family, flavour, shape, values); plus call sequences (scripted stale-cache patterns + random calls / in-place "
-                "modifications) on the same array objects; plus dtype / memory-layout / singleton-axis / broadcasting variants of integer-valued data")
+                "modifications) on the same array objects; plus dtype / memory-layout / singleton-axis / broadcasting variants of integer-valued data; "
+                "plus magnitudes k/64 * 2^e over the whole range of float64 / float32 (subnormal .. 2^1000); plus grids of 1e3 .. 1.5e6 values "
+                "(thorough 4e6), 2-3 data sets converted one after the other with every result re-judged after the later calls")
     res.trusted = C.BASE_TRUSTED + [
         "numpy arithmetic on arrays is element-wise and shape-preserving; x/0 yields inf/NaN (modelled as Py.divE's error \"div0\")",
         "translator option partial_div: every `/` of a translated function is Py.divE; functions without `/` are total",
@@ -679,7 +987,9 @@ def run(tier, res, force_search=False):
                        "inputs / floating result of a quotient, numpy views and strides (the model states the value-level fact: "
                        "Props.C18.storage_order2/3, map*_getD), arguments left untouched and absence of hidden caches keyed on object identity "
                        "(the specification is Model.Convert.run, Props.C18.call_fresh / calls_do_not_change_arrays; the driver op `seq` runs the "
-                       "same scripts), logger verbosity / np.errstate / warnings filters / print options (process state), float rounding",
+                       "same scripts), logger verbosity / np.errstate / warnings filters / print options (process state), float rounding, "
+                       "overflow / underflow at the ends of the floating range of the dtype (oracle_magnitude; over the rationals the theorems hold for "
+                       "every magnitude), array size and the persistence of a returned result while other arrays are converted (oracle_retained)",
                        "exact rational arithmetic: float rounding is carried by the tolerance (1e-12 relative for the round trip on the real code, 1e-9 for model vs code)",
                        "inputs are finite floats"]
 
@@ -845,6 +1155,32 @@ def run(tier, res, force_search=False):
             problems_all.append((p, {"oracle": "sequence", "family": "sequence", "shape": list(tas.shape), "init": init,
                                      "script": [list(x) for x in script[:nstep + 1]], "detail": {"step": nstep}}))
 
+    # magnitudes over the whole range of the dtype (subnormal .. huge), float64 and float32
+    n_mag = (30 if tier == "quick" else 400) * (3 if (force_search or not lean_ok) else 1)
+    for k in range(n_mag):
+        mcase = gen_magnitude(rng, tier)
+        res.count(("magnitude", mcase["family"], mcase["dtype"], mcase["mode"], str(mcase.get("pr", mcase.get("tas")))), True,
+                  sample={kk: mcase[kk] for kk in ("family", "dtype", "shape", "mode")} if k == 0 else None)
+        for p, d in oracle_magnitude(mcase):
+            problems_all.append((p, {"oracle": "magnitude", **mcase, "detail": d}))
+
+    # realistic grid sizes (1e3 .. 1.5e6 values, thorough: 4e6), several data sets converted one after the other, results kept
+    classes = ["small", "small", "mid", "large"] if tier == "quick" else ["small"] * 6 + ["mid"] * 4 + ["large"] * 3 + ["huge"]
+    if force_search or not lean_ok:
+        classes += ["mid", "large", "large"]
+    for k, cls in enumerate(classes):
+        rcase = gen_retained(rng, cls)
+        res.count(("retained", str(rcase["datasets"])), True,
+                  sample={"family": "retained", "shape": rcase["shape"], "datasets": len(rcase["datasets"]), "dtype": rcase["datasets"][0]["dtype"]} if k == 0 else None)
+        res.extra["largest_array"] = max(res.extra.get("largest_array", 0), int(np.prod(rcase["shape"])))
+        try:
+            rprobs = oracle_retained(rcase)
+        except MemoryError as ex:  # the machine, not the code under test
+            res.extra["retained_skipped"] = res.extra.get("retained_skipped", 0) + 1
+            rprobs = []
+        for p, d in rprobs:
+            problems_all.append((p, {"oracle": "retained", **rcase, "detail": d}))
+
     # python scalars (0-d without numpy): the functions are plain formulas and must accept them
     for k in range(6):
         lo = dy(rng, -20, 20)
@@ -933,6 +1269,10 @@ def replay(data):
                               {a: tuple(v) for a, v in fi["spec"].items()}, fi["broadcast"])
     elif fi["oracle"] == "sequence":
         probs = [(p, {"step": n}) for p, n in run_sequence(fi["init"], [tuple(x) for x in fi["script"]])]
+    elif fi["oracle"] == "magnitude":
+        probs = oracle_magnitude(fi)
+    elif fi["oracle"] == "retained":
+        probs = oracle_retained(fi)
     elif fi["oracle"] == "tas":
         probs = oracle_tas(A("tas"), A("tasmin"), A("tasmax"))
     elif fi["oracle"] == "order":
